@@ -653,8 +653,14 @@ func (v *vC08Net) links(ch *clusterChannels, one, two bool) error {
 // channel states from disk and restarts both links, which then re-establish.
 // Switches, circuit maps and mailboxes survive.
 func (v *vC08Net) flap(ch int) error {
+	return v.flapDown(ch, 0, nil)
+}
+
+// flapDown keeps the channel down for a while (the rest of the network keeps
+// running, packets for the channel queue up in its mailboxes) and runs mid()
+// in the middle of the downtime.
+func (v *vC08Net) flapDown(ch int, down time.Duration, mid func() error) error {
 	v.gate.Lock()
-	defer v.gate.Unlock()
 	n := v.n
 	if ch == 1 {
 		n.bobServer.htlcSwitch.RemoveLink(n.firstBobChannelLink.ChanID())
@@ -669,6 +675,18 @@ func (v *vC08Net) flap(ch int) error {
 	v.epoch[ch]++
 	v.dropping[ch] = false
 	v.mu.Unlock()
+	if down > 0 {
+		v.gate.Unlock()
+		time.Sleep(down / 2)
+		if mid != nil {
+			if err := mid(); err != nil {
+				return err
+			}
+		}
+		time.Sleep(down / 2)
+		v.gate.Lock()
+	}
+	defer v.gate.Unlock()
 	chans, err := v.restore(ch == 1, ch == 2)
 	if err != nil {
 		return err
@@ -976,7 +994,7 @@ func vC08Quiet(n *threeHopNetwork, r *vC08Rec) (bool, string) {
 // vC08Plan chooses the faults of a batch.  mode cycles through all fault
 // kinds so that any six consecutive batches cover every kind.
 func vC08Plan(rg *vrng, idx int) (string, bool, []*vC08Fault) {
-	modes := []string{"flap", "dropflap", "restart", "droprestart", "flap2", "delay"}
+	modes := []string{"flap", "dropflap", "restart", "droprestart", "flap2", "delay", "crossflap"}
 	mode := modes[(idx+int(vSeed()))%len(modes)]
 	if vEnvInt("VERIF_C08_NOFAULT", 0) != 0 {
 		return "none", false, nil
@@ -1008,6 +1026,13 @@ func vC08Plan(rg *vrng, idx int) (string, bool, []*vC08Fault) {
 		return mode, delays, []*vC08Fault{mk("restart", false)}
 	case "droprestart":
 		return mode, delays, []*vC08Fault{mk("restart", true)}
+	case "crossflap":
+		// channel Chan goes down for Wait*8 ms; in the middle the OTHER channel
+		// is re-established (its replayed adds meet half-open circuits whose
+		// packets wait in the mailbox of the channel that is down)
+		f := mk("crossflap", false)
+		f.Wait = 40 + rg.intn(160)
+		return mode, delays, []*vC08Fault{f}
 	case "flap2":
 		fs := []*vC08Fault{mk("flap", rg.bool()), mk("flap", rg.bool())}
 		if rg.intn(3) == 0 {
@@ -1052,11 +1077,16 @@ func (v *vC08Net) controller(plan []*vC08Fault, stop <-chan struct{}, done chan<
 			v.mu.Unlock()
 			v.rec.add("x", "dropping", f.Chan)
 		}
-		time.Sleep(time.Duration(f.Wait) * time.Millisecond)
 		var err error
-		if f.Kind == "flap" {
+		switch f.Kind {
+		case "flap":
+			time.Sleep(time.Duration(f.Wait) * time.Millisecond)
 			err = v.flap(f.Chan)
-		} else {
+		case "crossflap":
+			err = v.flapDown(f.Chan, time.Duration(f.Wait)*time.Millisecond,
+				func() error { return v.flap(3 - f.Chan) })
+		default:
+			time.Sleep(time.Duration(f.Wait) * time.Millisecond)
 			err = v.restartBob()
 		}
 		if err != nil {
@@ -1405,7 +1435,7 @@ func TestVerifThreeHop(t *testing.T) {
 	out := vOpenOut()
 	defer out.close()
 	root := vNewRng(vSeed())
-	n := vCases(6, 60)
+	n := vCases(7, 70)
 	stuck := 0
 	only := vEnvInt("VERIF_C08_ONLY", -1)
 	if only < 0 && vEnvInt("VERIF_C08_NOPROBE", 0) == 0 {
